@@ -2,7 +2,8 @@
    "partial": serde_json's writer is modelled by [serialise] (checked against the real bytes by
    the correspondence run, not verified); schema conformance of all fields is an oracle. *)
 From Coq Require Import Lia.
-From RM Require Import C15.Model C15.Schema C15.Widths C15.Utf8 C15.Proofs C15.Proofs2 C15.Proofs3 C15.Proofs4 C15.Proofs5.
+From RM Require Import Gen.C15Fmt.
+From RM Require Import C15.Model C15.Schema C15.Widths C15.Utf8 C15.Pretty C15.Proofs C15.Proofs2 C15.Proofs3 C15.Proofs4 C15.Proofs5 C15.Proofs6 C15.Proofs7.
 Open Scope Z_scope.
 
 (* Escaping is total and correct: every JSON value — arbitrary nesting, arbitrary integers,
@@ -191,7 +192,8 @@ Print Assumptions c15_os_unknown_known_witness.
    in BOTH build profiles the report is produced without trap, is a JSON value whose serialisation parses back to it, and
    conforms to the documented schema: every member name at every level is documented and occurs once, every value has the
    documented type or is null, every enumeration-valued string is a documented value, every Address / register / microcode
-   string is "0x" + 1..16 lower-case hex digits.  Outside the model (so outside this theorem): "soft_errors" and
+   string is "0x" + 1..16 lower-case hex digits.  "soft_errors" is inside the model since round 5 (for EVERY content of the
+   dump's soft-errors stream: see c15_soft_errors).  Outside the model (so outside this theorem):
    possible_bit_flips[].confidence (the model's document has every other member of print_json's). *)
 Theorem c15_schema_conformance : forall p s, wf_state s = true ->
   exists j, json_of_state p s = Ret j /\ conforms DOC_SCHEMA j = true /\ parse (serialise j) = Some j.
@@ -278,6 +280,140 @@ Theorem c15_source_keys_documented :
 Proof. split; [apply subset_In; vm_compute; reflexivity|split; reflexivity]. Qed.
 Print Assumptions c15_source_keys_documented.
 
+(* SOFT ERRORS.  The MozSoftErrors stream is free-form JSON text, so the state's soft_errors value is ANY JSON value (s_soft is
+   unconstrained by wf_state).  In the report of every well-formed state the member is that value when it is an array of objects and
+   null otherwise, and it conforms to the documented type ([ <object> ], read from json-schema.md) — for every stream content. *)
+Theorem c15_soft_errors : forall p s, wf_state s = true ->
+  exists j, json_of_state p s = Ret j /\
+    jget k_soft_errors j = Some (soft_value (s_soft s)) /\
+    conforms (sub1 DOC_SCHEMA k_soft_errors) (soft_value (s_soft s)) = true /\
+    (forall v, s_soft s = Some v -> soft_ok v = true -> jget k_soft_errors j = Some v) /\
+    (forall v, s_soft s = Some v -> soft_ok v = false -> jget k_soft_errors j = Some JNull).
+Proof.
+  intros p s H. exists (report_obj s). split; [exact (report_pure p s H)|].
+  assert (G : jget k_soft_errors (report_obj s) = Some (soft_value (s_soft s))).
+  { pose proof (wf_state_ok s H) as (_ & _ & _ & Hr). unfold report_obj. destruct (s_requesting s) as [i|]; [|reflexivity].
+    destruct (nth_error (s_threads s) i) as [t|] eqn:E.
+    - destruct (th_frames t); reflexivity.
+    - exfalso. apply nth_error_None in E. lia. }
+  split; [exact G|]. split; [apply soft_conforms|]. split; intros v Hv Hok; rewrite G, Hv; unfold soft_value; rewrite Hok; reflexivity.
+Qed.
+Print Assumptions c15_soft_errors.
+
+(* F-C15d (fixed in /repo): before the fix print_json passed the stream's value through.  Such values violate the documented type,
+   which is why the pass-through model made c15_schema_conformance unprovable: a number, a string, an object, an array with a
+   non-object element.  The fixed code reports null for each of them; an array of objects (also the empty one) is reported as is. *)
+Theorem c15_soft_errors_passthrough_refuted :
+  let t := sub1 DOC_SCHEMA k_soft_errors in
+  conforms t (JNum 7) = false /\ conforms t (JStr [115]) = false /\ conforms t (JObj [([97], JNum 1)]) = false /\
+  conforms t (JArr [JObj []; JStr [120]]) = false /\
+  soft_value (Some (JNum 7)) = JNull /\ soft_value (Some (JStr [115])) = JNull /\ soft_value (Some (JObj [([97], JNum 1)])) = JNull /\
+  soft_value (Some (JArr [JObj []; JStr [120]])) = JNull /\
+  soft_value (Some (JArr [])) = JArr [] /\ soft_value (Some (JArr [JObj [([97], JNum 1)]])) = JArr [JObj [([97], JNum 1)]].
+Proof. vm_compute. repeat split; reflexivity. Qed.
+Print Assumptions c15_soft_errors_passthrough_refuted.
+
+(* PRETTY OUTPUT.  print_json(pretty = true) writes [pretty v] (serde_json's PrettyFormatter: two-space indent, ": " after a member
+   name, "[]" / "{}" for empty containers; compared byte for byte with the real pretty output on every case).  For every JSON value
+   the pretty rendering AND the compact one are accepted by [parse_ws] — the RFC 8259 grammar with insignificant whitespace (space,
+   tab, LF, CR) around every value and structural character, raw control characters in strings rejected, numbers in normal form, no
+   trailing text — and parse back to exactly that value, so both outputs are valid JSON denoting the same value; the compact layout of
+   the parametrised serialiser is [serialise]. *)
+Theorem c15_pretty_parse : forall v,
+  parse_ws (pretty v) = Some v /\ parse_ws (serialise v) = Some v /\ ser_lo COMPACT 0 v = serialise v.
+Proof. intro v. split; [apply pretty_parse_ws|]. split; [apply compact_parse_ws|apply ser_lo_compact]. Qed.
+Print Assumptions c15_pretty_parse.
+
+(* the pretty bytes are valid UTF-8 as well: strict decoding returns the pretty code points *)
+Theorem c15_pretty_utf8 : forall v, jscalar v = true ->
+  utf8_decode (length (utf8 (pretty v))) (utf8 (pretty v)) = Some (pretty v) /\ forallb scalar (pretty v) = true.
+Proof. intros v H. split; [exact (pretty_bytes_utf8 v H)|exact (pretty_scalar v H)]. Qed.
+Print Assumptions c15_pretty_utf8.
+
+(* [parse_ws] is not vacuous: two values, a trailing comma, a missing colon, a leading zero, a raw LF inside a string, an unclosed
+   array, a vertical tab as whitespace and trailing text are rejected; whitespace in every legal position is accepted; and the pretty
+   layout of a small document is the expected text *)
+Theorem c15_parse_ws_rejects :
+  parse_ws [49; 32; 50] = None /\ parse_ws [91; 49; 44; 93] = None /\ parse_ws [123; 34; 97; 34; 32; 49; 125] = None /\
+  parse_ws [48; 49] = None /\ parse_ws [34; 10; 34] = None /\ parse_ws [91; 49] = None /\ parse_ws [11; 49] = None /\
+  parse_ws [110; 117; 108; 108; 120] = None /\ parse_ws [] = None /\
+  parse_ws [32; 91; 10; 49; 9; 44; 13; 123; 32; 34; 97; 34; 32; 58; 32; 110; 117; 108; 108; 32; 125; 32; 93; 10]
+    = Some (JArr [JNum 1; JObj [([97], JNull)]]) /\
+  pretty (JObj [([97], JArr [JNum 1; JObj []; JArr []]); ([98], JObj [([99], JNull)])]) =
+    [123; 10; 32; 32; 34; 97; 34; 58; 32; 91; 10; 32; 32; 32; 32; 49; 44; 10; 32; 32; 32; 32; 123; 125; 44; 10; 32; 32; 32; 32; 91; 93;
+     10; 32; 32; 93; 44; 10; 32; 32; 34; 98; 34; 58; 32; 123; 10; 32; 32; 32; 32; 34; 99; 34; 58; 32; 110; 117; 108; 108; 10; 32; 32;
+     125; 10; 125].
+Proof. vm_compute. repeat split; reflexivity. Qed.
+Print Assumptions c15_parse_ws_rejects.
+
+(* ADDRESSES DENOTE THE FULL VALUE.  For every pointer width — also a 32-bit one with a value of 2^32 or more (a module ending at
+   0x1_0000_0000, a 64-bit register of a MIPS / SPARC context, a corrupt module base) — the digits after "0x" denote the whole
+   64-bit value: the 32-bit format is a minimum padding, never a truncation; hence two different values never print alike. *)
+Theorem c15_address_denotes : forall w x, 0 <= x < two64 -> hex_value (skipn 2 (address_str w x)) = x.
+Proof. exact address_denotes. Qed.
+Print Assumptions c15_address_denotes.
+
+Theorem c15_address_injective : forall w x y, 0 <= x < two64 -> 0 <= y < two64 -> address_str w x = address_str w y -> x = y.
+Proof. exact address_injective. Qed.
+Print Assumptions c15_address_injective.
+
+(* the modules / unloaded_modules arrays mirror the module lists BY VALUE for every pointer width: the hex strings of element i decode
+   to module i's base and base + size *)
+Theorem c15_modules_denote : forall p s, wf_state s = true ->
+  exists j ms us, json_of_state p s = Ret j /\
+    jget k_modules j = Some (JArr ms) /\ jget k_unloaded_modules j = Some (JArr us) /\
+    (forall i m, nth_error (s_modules s) i = Some m ->
+       exists mj b e, nth_error ms i = Some mj /\ jget k_base_addr mj = Some (JStr b) /\ jget k_end_addr mj = Some (JStr e) /\
+         hex_value (skipn 2 b) = m_base m /\ hex_value (skipn 2 e) = m_base m + m_size m) /\
+    (forall i m, nth_error (s_unloaded s) i = Some m ->
+       exists mj b e, nth_error us i = Some mj /\ jget k_base_addr mj = Some (JStr b) /\ jget k_end_addr mj = Some (JStr e) /\
+         hex_value (skipn 2 b) = m_base m /\ hex_value (skipn 2 e) = m_base m + m_size m).
+Proof.
+  intros p s Hw. pose proof (wf_state_ok s Hw) as Hok. pose proof Hok as (_ & Hm & Hu & _).
+  destruct (c15_modules_mirror p s Hok) as (j & ms & us & Hj & Hms & Hus & _ & _ & Hmod & Hunl & _).
+  exists j, ms, us. split; [exact Hj|]. split; [exact Hms|]. split; [exact Hus|]. split.
+  - intros i m Hn. destruct (Hmod i m Hn) as (mj & A & _ & B & C & _). exists mj. eexists. eexists.
+    split; [exact A|]. split; [exact B|]. split; [exact C|].
+    rewrite Forall_forall in Hm. destruct (Hm m (nth_error_In _ _ Hn)) as (M1 & M2 & M3).
+    split; apply address_denotes; lia.
+  - intros i m Hn. destruct (Hunl i m Hn) as (mj & A & _ & B & C & _). exists mj. eexists. eexists.
+    split; [exact A|]. split; [exact B|]. split; [exact C|].
+    rewrite Forall_forall in Hu. destruct (Hu m (nth_error_In _ _ Hn)) as (M1 & M2 & M3).
+    split; apply address_denotes; lia.
+Qed.
+Print Assumptions c15_modules_denote.
+
+(* THE FORMAT STRINGS OF THE SOURCE.  translate/c15_fmt.py reads the match arms of `impl Display for Address` (pointer-width pattern,
+   the N of `{:#0Nx}`, the formatted expression incl. a truncating `as uK` cast), the default of the thread-local pointer width and the
+   arms of `impl Serialize for Limit` off process_state.rs on every run (and aborts unless every Address reaches the document through that
+   Display impl: serde(into = "String"), From<Address> for String, json_hex, set_print_context).  [fmt_alt_hex] models Rust's `{:#0Nx}`
+   (minimal digits, zero-padded to N characters in all).  For every pointer width and every 64-bit value the model's address_str is
+   exactly what the translated arms write, and json_of_lim is what the translated Limit arms write: an edit of a width, a cast of the
+   formatted value, a guard or another serializer call in Limit breaks this theorem (or aborts the translator) without any test input. *)
+Theorem c15_format_semantics :
+  (forall w x, 0 <= x < two64 -> address_str w x = address_display w x) /\
+  (forall l, json_of_lim l = lim_display l) /\
+  ADDRESS_DEFAULT_WIDTH = width_index WUnknown.
+Proof. split; [exact address_str_display|]. split; [exact json_of_lim_display|reflexivity]. Qed.
+Print Assumptions c15_format_semantics.
+
+(* FINITE CHECK: the translated arms are the ones the model was written for; the formatter model on concrete values *)
+Theorem c15_format_pinned :
+  ADDRESS_ARMS = [(0, 10, 0); (-1, 18, 0)] /\ ADDRESS_DEFAULT_WIDTH = 2 /\
+  LIMIT_ARMS = [(0, Some s_err); (1, Some s_unlimited); (2, None)] /\
+  fmt_alt_hex 10 255 = [48; 120; 48; 48; 48; 48; 48; 48; 102; 102] /\
+  fmt_alt_hex 10 4294967296 = [48; 120; 49; 48; 48; 48; 48; 48; 48; 48; 48] /\
+  cast_arg 32 4294967296 = 0.
+Proof. vm_compute. repeat split; reflexivity. Qed.
+Print Assumptions c15_format_pinned.
+
+(* non-vacuity of the 32-bit case: a module ending exactly at 2^32 on a 32-bit platform *)
+Example c15_nonvacuous_wide32 :
+  address_str W32 4294967296 = [48; 120; 49; 48; 48; 48; 48; 48; 48; 48; 48] /\
+  address_str W32 4294901760 = [48; 120; 102; 102; 102; 102; 48; 48; 48; 48] /\
+  hex_value (skipn 2 (address_str W32 18446744073709551615)) = 18446744073709551615.
+Proof. vm_compute. repeat split; reflexivity. Qed.
+
 (* ---- non-vacuity ---- *)
 Example c15_nonvacuous_roundtrip :
   let v := JObj [([97; 34; 92; 10; 1; 128512], JArr [JNum (-42); JNum 0; JNull; JBool true; JStr [31; 127; 8]; JObj []; JArr []])] in
@@ -322,7 +458,8 @@ Definition ex_state : state :=
      s_mac_crash := Some [ {| mc_thread := Some 1; mc_dialog := None; mc_abort := Some 4294967296; mc_module := Some [109];
                               mc_message := None; mc_signature := None; mc_backtrace := None; mc_message2 := Some [34] |} ];
      s_bootargs := Some [45; 118];
-     s_handles := Some [ {| h_handle := Some 18446744073709551615; h_type := Some [70]; h_object := None |} ] |}.
+     s_handles := Some [ {| h_handle := Some 18446744073709551615; h_type := Some [70]; h_object := None |} ];
+     s_soft := Some (JArr [JObj [([97; 100; 100; 114; 101; 115; 115], JStr [63]); ([110], JArr [JNum (-1); JNull])]; JObj []]) |}.
 Example c15_nonvacuous_state : state_ok ex_state /\ wf_state ex_state = true /\ regs_named_ok (s_registers ex_state) = true /\
   exists j, json_of_state Debug ex_state = Ret j /\ parse (serialise j) = Some j /\ conforms DOC_SCHEMA j = true /\
             jget k_thread_count j = Some (JNum 2) /\ (1400 < length (serialise j))%nat.
